@@ -225,6 +225,12 @@ func (rl *Shell) execute(command func()) {
 // Some commands show their current status as a hint (iterations/macro).
 func (rl *Shell) updatePosRunHints() {
 	hint := core.ResetPostRunIterations(rl.Iterations)
+
+	// An argument the command did not use is not kept for the next one, except
+	// while a vi operator waits for the motion the argument is meant for.
+	if rl.Keymap.Local() != keymap.ViOpp {
+		rl.Iterations.DropUnused()
+	}
 	register, selected := rl.Buffers.IsSelected()
 
 	if hint == "" && !selected && !rl.Macros.Recording() {
